@@ -72,6 +72,8 @@ def check(ctx) -> None:
     r614(ctx, cg)
     r615(ctx, cg)
     r616(ctx, cg)
+    r617(ctx, cg)
+    r618(ctx)
     ctx.extra_coverage['call_graph'] = {
         'functions': len(cg.funcs), 'call_sites_resolved': cg.resolved,
         'call_sites_unresolved': cg.unresolved,
@@ -1855,3 +1857,92 @@ def r616(ctx, cg) -> None:
                if isinstance(x, ast.FunctionDef))
     R.check(hits == 2, None, None, 'positive fixture still matches',
             f'fixtures/r616_positive.py: {hits} read(s) found, expected 2')
+
+
+def r617(ctx, cg) -> None:
+    """An error reply is built from the exception being handled ('%s' % exc,
+    str(exc), bytes(exc)); that runs the exception's own __str__ / __bytes__
+    INSIDE the handler, where nothing catches a second failure.  Those
+    methods therefore contain no conversion that can raise (the may-raise
+    table of sa/escape.py: decoding without an error handler, int(), ...)."""
+    R = ctx.rule('R6.17', 'formatting an exception for an error reply cannot '
+                 'raise', 2)
+    es = Escapes(ctx.proj, cg)
+    n = 0
+    for c in ctx.proj.all_classes('pymap/'):
+        if c.rel.startswith(('pymap/admin/', 'pymap/backend/redis/')):
+            continue
+        import builtins
+        is_exc = False
+        for k in c.mro():
+            for bn in k.base_names:
+                b = getattr(builtins, bn.split('.')[-1], None)
+                if isinstance(b, type) and issubclass(b, BaseException):
+                    is_exc = True
+        if not is_exc:
+            continue
+        for nm in ('__str__', '__bytes__', '__repr__'):
+            f = c.own_method(nm)
+            if f is None:
+                continue
+            n += 1
+            loc = es.local(f)
+            R.check(not loc, f, f.node,
+                    f'{c.name}.{nm} cannot raise',
+                    f'{[(e.what, e.exc) for e in loc]}: the error reply is '
+                    f'formatted from the exception inside its own handler '
+                    f'(ManageSieve: `BadCommandResponse(exc)` does '
+                    f'"Bad command: %s" % exc), so a line that does not '
+                    f'parse AND whose remainder is not valid in that codec '
+                    f'(`FOO \\xff`) raises out of the handler: the '
+                    f'connection is closed without any reply',
+                    'no raising conversion')
+    if n < 2:
+        raise AnchorError(f'only {n} __str__/__bytes__ method(s) of '
+                          f'exception classes found (2 confirmed by hand: '
+                          f'NotParseable.__bytes__ and __str__)')
+
+
+SCAN_METHODS = ('search', 'finditer', 'findall', 'sub', 'subn', 'split')
+
+
+def r618(ctx) -> None:
+    """Compiled patterns that are applied with an unanchored scan to client
+    bytes or to text of stored messages: no pattern of the shape
+    `c X* <something X* cannot supply>` with c in X (quadratic on c*n)."""
+    R = ctx.rule('R6.18', 'unanchored regex scans are not quadratic on a run '
+                 'of their own first character', 9)
+    n = 0
+    for c in ctx.proj.all_classes('pymap/'):
+        if c.rel.startswith(('pymap/admin/', 'pymap/backend/redis/',
+                             'pymap/sieve/runner', 'pymap/main')):
+            continue
+        for nm, v in c.class_assigns().items():
+            if not (isinstance(v, ast.Call) and call_name(v) == 'compile'
+                    and v.args):
+                continue
+            ok, src = const_value(v.args[0])
+            if not ok or not isinstance(src, (str, bytes)):
+                continue
+            # how is it applied?
+            scans = [m for m in SCAN_METHODS
+                     if f'{nm}.{m}(' in c.module.src]
+            if not scans:
+                continue
+            n += 1
+            w = rx.quadratic_scan_witness(src)
+            from ..report import Site
+            R.check(w is None, Site(c.rel, v.lineno, c.name), None,
+                    f'{c.name}.{nm} ({scans[0]})',
+                    f'{c.name}.{nm} = {src!r} is applied with '
+                    f'.{scans[0]}(): it can start at {chr(w)!r}, then '
+                    f'repeats a class that also contains {chr(w)!r}, then '
+                    f'needs something else — on {chr(w)!r}*n every start '
+                    f'position scans to the end: n(n+1)/2 steps (80 000 '
+                    f'characters ≈ 2.5 s, 800 000 ≈ 4 min) on the one event '
+                    f'loop; a References header or a command line of that '
+                    f'shape stops every connection being served'
+                    if w is not None else '', 'no quadratic shape')
+    if n < 9:
+        raise AnchorError(f'only {n} scanned class-level patterns found (9 '
+                          f'confirmed by hand)')
